@@ -86,6 +86,32 @@ def make_hamiltonian(ptn, rng, L, kind):
     raise ValueError(kind)
 
 
+def basis_state_on(ptn, rng, psi):
+    """overwrite psi (given charges) by one computational basis state of its sector embedded in the same bond spaces"""
+    L = psi.nsites
+    qd = [int(x) for x in psi.qd]
+    qtot = int(psi.qD[-1][0] - psi.qD[0][0])
+    # choose a configuration with the right total charge by a random walk constrained to co-reachable charges
+    for _try in range(200):
+        cfg = [int(rng.integers(len(qd))) for _ in range(L)]
+        if sum(qd[s] for s in cfg) == qtot:
+            break
+    else:
+        return False
+    q = int(psi.qD[0][0])
+    idx = 0
+    for i in range(L):
+        psi.A[i] = np.zeros_like(psi.A[i], dtype=complex)
+        q2 = q + qd[cfg[i]]
+        cand = [b for b, x in enumerate(psi.qD[i + 1]) if int(x) == q2]
+        if not cand:
+            return False
+        b = cand[0]
+        psi.A[i][cfg[i], idx, b] = 1.0
+        idx, q = b, q2
+    return True
+
+
 def random_state(ptn, rng, H, maxD=4, complete=False, real=False, qnums=True):
     L = H.nsites
     qd = [int(x) for x in H.qd]
@@ -118,17 +144,20 @@ def _iso_ok(A, direction):
 
 
 def _left_block(ptn, psi, H, k):
+    """block to the left of site k, recomputed with the harness's own einsum (independent of pytenet.operation)"""
     B = np.array([[[1]]], dtype=complex)
     for j in range(k):
-        B = ptn.operation.contraction_operator_step_left(psi.A[j], psi.A[j], H.A[j], B)
+        # B[a,w,b] A[t,a,a2] W[s,t,w,w2] conj(A[s,b,b2]) -> [a2,w2,b2]
+        B = np.einsum('awb,tac,stwx,sbd->cxd', B, psi.A[j], H.A[j], np.conj(psi.A[j]), optimize=True)
     return B
 
 
 def _right_block(ptn, psi, H, k):
-    """block to the right of site k"""
+    """block to the right of site k (own einsum)"""
     B = np.array([[[1]]], dtype=complex)
     for j in range(psi.nsites - 1, k, -1):
-        B = ptn.operation.contraction_operator_step_right(psi.A[j], psi.A[j], H.A[j], B)
+        # A[t,a,a2] W[s,t,w,w2] conj(A[s,b,b2]) R[a2,w2,b2] -> [a,w,b]
+        B = np.einsum('tac,stwx,sbd,cxd->awb', psi.A[j], H.A[j], np.conj(psi.A[j]), B, optimize=True)
     return B
 
 
@@ -274,7 +303,7 @@ def sector_ground_energy(Hd, qd, L, qtot):
     return float(np.linalg.eigvalsh(Hd[np.ix_(idx, idx)])[0])
 
 
-def record_dmrg(ptn, H, psi, alg, nsweeps, numiter, tol_split=0.0, tr=None, complete=False):
+def record_dmrg(ptn, H, psi, alg, nsweeps, numiter, tol_split=0.0, tr=None, complete=False, basis_start=False):
     tr = tr if tr is not None else []
     L = psi.nsites
     tr.append(dict(ev='begin', alg=alg, L=L, nsteps=nsweeps, sign=1))
@@ -303,8 +332,14 @@ def record_dmrg(ptn, H, psi, alg, nsweeps, numiter, tol_split=0.0, tr=None, comp
         mono = all(en[k + 1] <= en[k] + tolE for k in range(len(en) - 1)) if tol_split == 0 else True
         consistent = abs(dense_energy(Hd, v1) - en[-1]) <= 1e-8 * scaleH if len(en) else True
         exact = True
-        if complete and numiter >= 25 and nsweeps >= 3 and e_sector is not None:
+        if complete and not basis_start and numiter >= 25 and nsweeps >= 3 and e_sector is not None:
             exact = abs(en[-1] - e_sector) <= 1e-7 * scaleH
+        lowered = True
+        if basis_start and alg == 'dmrg2' and numiter >= 2 and len(en):
+            # a basis state that is not an eigenstate has a non-zero two-site gradient on some pair (nearest-neighbour H)
+            vn = v0 / np.linalg.norm(v0)
+            if np.linalg.norm(Hd @ vn - E_start * vn) > 1e-6 * scaleH:
+                lowered = bool(en[-1] < E_start - 1e-9 * scaleH)
         what = ''
         if not varia:
             what = 'a reported energy lies below the exact ground-state energy of the sector'
@@ -314,13 +349,15 @@ def record_dmrg(ptn, H, psi, alg, nsweeps, numiter, tol_split=0.0, tr=None, comp
             what = 'reported energies are not non-increasing'
         elif not exact:
             what = 'complete manifold: exact sector ground-state energy not reached'
+        elif not lowered:
+            what = 'two-site DMRG started from a basis state that is not an eigenstate did not lower the energy'
         tr.append(dict(ev='end', is_dmrg=True, nsteps=nsweeps, energies=[float(e).hex() for e in en], hooks_missing=bool(missing),
                        ret_ok=bool(len(en) == nsweeps), h_unchanged=bool(hdig == digest_arrays(H.A + list(H.qD) + [H.qd])),
                        sparse_ok=bool(canon.all_sparse(psi, 'mps')), types_ok=bool(canon.types_ok(psi, 'mps')),
                        boundary_ok=bool(np.array_equal(q0, psi.qD[0]) and np.array_equal(qL, psi.qD[-1])),
                        dims_ok=bool(all(a <= b for a, b in zip(psi.bond_dims, dims0)) or alg == 'dmrg2'),
                        norm_ok=bool(abs(float(np.linalg.norm(v1)) - 1.0) <= 1e-9),
-                       energy_ok=bool(consistent), extra_ok=bool(varia and below_start and mono and exact), extra_what=what,
+                       energy_ok=bool(consistent), extra_ok=bool(varia and below_start and mono and exact and lowered), extra_what=what,
                        expect_reduced=False))
     except BaseException as ex:  # noqa
         tr.append(dict(ev='raise', exc=f'{type(ex).__name__}: {str(ex)[:90]}'))
